@@ -146,6 +146,9 @@ def run_harness(builddir, ty, script, trace, timeout=20, env=None, exe=None, nof
     e["OMP_NUM_THREADS"] = "1"
     if env:
         e.update(env)
+        for k in ("ASAN_OPTIONS", "UBSAN_OPTIONS", "TSAN_OPTIONS"):
+            if k in e:
+                e[k] = e[k] + ":log_path=" + trace + ".san"
     lf = open(logfile, "w") if logfile else subprocess.DEVNULL
     try:
         r = subprocess.run(cmd, env=e, stdout=lf, stderr=subprocess.STDOUT, timeout=3600)
